@@ -10,10 +10,10 @@ import (
 
 // C01 — RTP packet encode/decode round trip is lossless.
 
-// buildViaAPI builds the packet through the public API only (struct fields with the profile
+// caBuildViaAPI builds the packet through the public API only (struct fields with the profile
 // preset, then SetExtension per element); nil when the description has duplicate ids or the API
 // refuses an element (then only the hook can build it).
-func buildViaAPI(in *PacketIn) *rtp.Packet {
+func caBuildViaAPI(in *PacketIn) *rtp.Packet {
 	seen := map[uint8]bool{}
 	for _, e := range in.Exts {
 		if seen[e.ID] {
@@ -42,7 +42,7 @@ func observeC01(c *Case, in *PacketIn, prev []byte) {
 	pkt := in.Build()
 	if c.R.Chance(1, 3) {
 		// the same value reached through the public API instead of the hook
-		if q := buildViaAPI(in); q != nil {
+		if q := caBuildViaAPI(in); q != nil {
 			pkt = q
 			c.Tag("built=api")
 		}
@@ -100,9 +100,9 @@ func observeC01(c *Case, in *PacketIn, prev []byte) {
 	}
 }
 
-// withDupes makes an element id occur twice now and then (legal on the wire for both RFC 8285
+// caWithDupes makes an element id occur twice now and then (legal on the wire for both RFC 8285
 // forms and reachable through Unmarshal; the accessors see the first, the encoder writes both).
-func withDupes(c *Case, p *PacketIn) {
+func caWithDupes(c *Case, p *PacketIn) {
 	if len(p.Exts) >= 2 && p.H.Extension && (p.H.ExtensionProfile == 0xBEDE || p.H.ExtensionProfile == 0x1000) && c.R.Chance(1, 6) {
 		i, j := c.R.Intn(len(p.Exts)), c.R.Intn(len(p.Exts))
 		if i != j {
@@ -112,9 +112,9 @@ func withDupes(c *Case, p *PacketIn) {
 	}
 }
 
-// genPrev draws what a reused receiver decoded before: nothing, a valid packet, a valid packet cut
+// caGenPrev draws what a reused receiver decoded before: nothing, a valid packet, a valid packet cut
 // short (Unmarshal fails part-way and leaves the receiver half-written), or random bytes.
-func genPrev(c *Case) []byte {
+func caGenPrev(c *Case) []byte {
 	switch c.R.Intn(6) {
 	case 0:
 		return nil
@@ -135,8 +135,8 @@ func genPrev(c *Case) []byte {
 	return b
 }
 
-// Tagged reports whether the case carries the tag.
-func (c *Case) Tagged(t string) bool {
+// caTagged reports whether the case carries the tag.
+func caTagged(c *Case, t string) bool {
 	for _, x := range c.tags {
 		if x == t {
 			return true
@@ -366,14 +366,14 @@ func init() {
 				var p *PacketIn
 				if c.R.Chance(1, 20) {
 					// outside the domain: nothing is demanded, the model must still agree
-					p = genPacketOdd(c.R, 60)
+					p = caGenPacketOdd(c.R, 60)
 					c.Tag("odd")
 				} else {
 					p = genPacketWF(c.R, maxPl)
-					withDupes(c, p)
+					caWithDupes(c, p)
 				}
 				tagPacket(c, p)
-				observeC01(c, p, genPrev(c))
+				observeC01(c, p, caGenPrev(c))
 			})
 		}
 	})
@@ -382,9 +382,9 @@ func init() {
 // ---------------------------------------------------------------------------------------------
 // C04 — MarshalTo honours the destination buffer contract.
 
-// fillDst returns a destination of n bytes with the given prior contents
+// caFillDst returns a destination of n bytes with the given prior contents
 // (0: 0x00, 1: 0xFF, 2: 0xEE, 3: random).
-func fillDst(r *Rand, n, fill int) []byte {
+func caFillDst(r *Rand, n, fill int) []byte {
 	if n < 0 {
 		n = 0
 	}
@@ -462,26 +462,26 @@ func c04Lengths(pkt *rtp.Packet) []int {
 	return []int{0, hsize - 1, hsize, size - 1, size, size + 1, size + 7}
 }
 
-// legacyEmptyOK probes the tree under test once: does a legacy-profile header without an element
+// caLegacyEmptyOK probes the tree under test once: does a legacy-profile header without an element
 // marshal without panicking (DESIGN §7 row 4 repaired)?  Only then are such headers generated.
 var (
-	legacyEmptyOnce  sync.Once
-	legacyEmptyValue bool
+	caLegacyEmptyOnce  sync.Once
+	caLegacyEmptyValue bool
 )
 
-func legacyEmptyOK() bool {
-	legacyEmptyOnce.Do(func() {
-		legacyEmptyValue = !try(func() { h := rtp.Header{Extension: true, ExtensionProfile: 0x1234}; _, _ = h.Marshal() })
+func caLegacyEmptyOK() bool {
+	caLegacyEmptyOnce.Do(func() {
+		caLegacyEmptyValue = !try(func() { h := rtp.Header{Extension: true, ExtensionProfile: 0x1234}; _, _ = h.Marshal() })
 	})
-	return legacyEmptyValue
+	return caLegacyEmptyValue
 }
 
-// genPacketOdd draws a description outside C01's domain that the model still describes exactly
+// caGenPacketOdd draws a description outside C01's domain that the model still describes exactly
 // (never a legacy profile without an element: DESIGN §7 row 4 is another group's defect).
-func genPacketOdd(r *Rand, maxPayload int) *PacketIn {
+func caGenPacketOdd(r *Rand, maxPayload int) *PacketIn {
 	p := genPacketWF(r, maxPayload)
 	n := 7
-	if legacyEmptyOK() {
+	if caLegacyEmptyOK() {
 		n = 8
 	}
 	switch r.Intn(n) {
@@ -582,7 +582,7 @@ func init() {
 										}
 										tagPacket(c, p)
 										n := c04Lengths(p.Build())[li]
-										observeC04(c, p, fillDst(c.R, n, fill))
+										observeC04(c, p, caFillDst(c.R, n, fill))
 									})
 								}
 							}
@@ -623,7 +623,7 @@ func init() {
 					}
 					c.Tag("every-length")
 					tagPacket(c, p)
-					observeC04(c, p, fillDst(c.R, n, c.R.Pick(1, 2, 3)))
+					observeC04(c, p, caFillDst(c.R, n, c.R.Pick(1, 2, 3)))
 				})
 			}
 		}
@@ -635,11 +635,11 @@ func init() {
 			x.Case(func(c *Case) {
 				var p *PacketIn
 				if c.R.Chance(1, 10) {
-					p = genPacketOdd(c.R, 100)
+					p = caGenPacketOdd(c.R, 100)
 					c.Tag("odd")
 				} else {
 					p = genPacketWF(c.R, maxPl)
-					withDupes(c, p)
+					caWithDupes(c, p)
 				}
 				tagPacket(c, p)
 				ls := c04Lengths(p.Build())
@@ -652,7 +652,7 @@ func init() {
 				default:
 					n = ls[c.R.Intn(len(ls))]
 				}
-				observeC04(c, p, fillDst(c.R, n, c.R.Intn(4)))
+				observeC04(c, p, caFillDst(c.R, n, c.R.Intn(4)))
 			})
 		}
 	})
@@ -667,7 +667,7 @@ type c20Nils struct {
 	extPl               []bool
 }
 
-func nilsOfHeader(h *rtp.Header) c20Nils {
+func caNilsOfHeader(h *rtp.Header) c20Nils {
 	n := c20Nils{csrc: h.CSRC == nil, exts: h.Extensions == nil}
 	_, pls := rtp.VerifExtensions(h)
 	for _, p := range pls {
@@ -676,7 +676,7 @@ func nilsOfHeader(h *rtp.Header) c20Nils {
 	return n
 }
 
-func writeNils(t *Toks, n c20Nils, withPayload bool) {
+func caWriteNils(t *Toks, n c20Nils, withPayload bool) {
 	t.Bool(n.csrc)
 	if withPayload {
 		t.Bool(n.payload)
@@ -688,15 +688,15 @@ func writeNils(t *Toks, n c20Nils, withPayload bool) {
 	}
 }
 
-// writeSide writes what one value shows: the canonical packet observation and the raw profile field.
-func writeSide(t *Toks, p *rtp.Packet) {
+// caWriteSide writes what one value shows: the canonical packet observation and the raw profile field.
+func caWriteSide(t *Toks, p *rtp.Packet) {
 	writePacketObs(t, p)
 	t.Nat(int(p.Header.ExtensionProfile))
 }
 
-// extArrayBytes views the backing array of a []Extension (up to capacity) as bytes, for the
+// caExtArrayBytes views the backing array of a []Extension (up to capacity) as bytes, for the
 // pointer-range overlap test.
-func extArrayBytes(es []rtp.Extension) []byte {
+func caExtArrayBytes(es []rtp.Extension) []byte {
 	if cap(es) == 0 {
 		return nil
 	}
@@ -704,7 +704,7 @@ func extArrayBytes(es []rtp.Extension) []byte {
 	return unsafe.Slice((*byte)(unsafe.Pointer(unsafe.SliceData(es))), sz)[:sz:sz]
 }
 
-func csrcBytes(cs []uint32) []byte {
+func caCsrcBytes(cs []uint32) []byte {
 	if cap(cs) == 0 {
 		return nil
 	}
@@ -712,13 +712,13 @@ func csrcBytes(cs []uint32) []byte {
 	return unsafe.Slice((*byte)(unsafe.Pointer(unsafe.SliceData(cs))), sz)[:sz:sz]
 }
 
-// byteSlicesOf lists every []byte reachable from a header (extension payloads) plus extra.
-func byteSlicesOf(h *rtp.Header, extra ...[]byte) [][]byte {
+// caByteSlicesOf lists every []byte reachable from a header (extension payloads) plus extra.
+func caByteSlicesOf(h *rtp.Header, extra ...[]byte) [][]byte {
 	_, pls := rtp.VerifExtensions(h)
 	return append(pls, extra...)
 }
 
-func anyOverlap(as, bs [][]byte) bool {
+func caAnyOverlap(as, bs [][]byte) bool {
 	for _, a := range as {
 		for _, b := range bs {
 			if overlaps(a, b) {
@@ -766,7 +766,7 @@ func buildC20(in *PacketIn, extsNil bool) *rtp.Packet {
 	return pkt
 }
 
-func marshalTok(t *Toks, p *rtp.Packet) {
+func caMarshalTok(t *Toks, p *rtp.Packet) {
 	var bs []byte
 	var err error
 	if try(func() { bs, err = p.Marshal() }) {
@@ -779,7 +779,7 @@ func marshalTok(t *Toks, p *rtp.Packet) {
 // c20ViaWire makes the next observeC20 call build the original by decoding its own wire image
 // (every slice of such a packet is a window into ONE receive buffer — the usual situation when a
 // received packet is cloned).  Only used for well-formed descriptions.
-func rebuildViaWire(orig *rtp.Packet) *rtp.Packet {
+func caRebuildViaWire(orig *rtp.Packet) *rtp.Packet {
 	var wire []byte
 	var err error
 	if try(func() { wire, err = orig.Marshal() }) || err != nil {
@@ -802,44 +802,44 @@ func observeC20(c *Case, in *PacketIn, extsNil bool, m c20Mut, onClone bool) {
 func observeC20x(c *Case, in *PacketIn, extsNil bool, m c20Mut, onClone, viaWire bool) {
 	orig := buildC20(in, extsNil)
 	if viaWire {
-		if q := rebuildViaWire(orig); q != nil {
+		if q := caRebuildViaWire(orig); q != nil {
 			orig = q
 			c.Tag("built=unmarshal")
 		}
 	}
 	orig.Header.PayloadOffset = c.R.Pick(0, 12, 16, c.R.Intn(2000)) // deprecated, but a header field: Clone must carry it
-	nils := nilsOfHeader(&orig.Header)
+	nils := caNilsOfHeader(&orig.Header)
 	nils.payload = orig.Payload == nil
 	writePacketIn(&c.I, in)
 	c.I.Nat(orig.Header.PayloadOffset)
-	writeNils(&c.I, nils, true)
+	caWriteNils(&c.I, nils, true)
 	c.I.Nat(m.kind).Nat(m.a).Nat(m.b).Bytes(m.bs).Bool(onClone)
 
-	marshalTok(&c.O, orig)
+	caMarshalTok(&c.O, orig)
 	var clone *rtp.Packet
 	if try(func() { clone = orig.Clone() }) || clone == nil {
 		c.O.Tok("panic-Clone")
 		return
 	}
-	writeSide(&c.O, clone)
-	cn := nilsOfHeader(&clone.Header)
+	caWriteSide(&c.O, clone)
+	cn := caNilsOfHeader(&clone.Header)
 	cn.payload = clone.Payload == nil
-	writeNils(&c.O, cn, true)
+	caWriteNils(&c.O, cn, true)
 	c.O.Nat(clone.Header.PayloadOffset)
-	origBytes := byteSlicesOf(&orig.Header, orig.Payload)
-	c.O.Bool(anyOverlap([][]byte{clone.Payload}, origBytes))
-	c.O.Bool(overlaps(csrcBytes(clone.CSRC), csrcBytes(orig.CSRC)))
-	c.O.Bool(overlaps(extArrayBytes(clone.Extensions), extArrayBytes(orig.Extensions)))
-	c.O.Bool(anyOverlap(byteSlicesOf(&clone.Header), origBytes))
+	origBytes := caByteSlicesOf(&orig.Header, orig.Payload)
+	c.O.Bool(caAnyOverlap([][]byte{clone.Payload}, origBytes))
+	c.O.Bool(overlaps(caCsrcBytes(clone.CSRC), caCsrcBytes(orig.CSRC)))
+	c.O.Bool(overlaps(caExtArrayBytes(clone.Extensions), caExtArrayBytes(orig.Extensions)))
+	c.O.Bool(caAnyOverlap(caByteSlicesOf(&clone.Header), origBytes))
 
 	hc := orig.Header.Clone()
 	writeHeaderObs(&c.O, &hc)
 	c.O.Nat(int(hc.ExtensionProfile))
-	writeNils(&c.O, nilsOfHeader(&hc), false)
+	caWriteNils(&c.O, caNilsOfHeader(&hc), false)
 	c.O.Nat(hc.PayloadOffset)
-	c.O.Bool(overlaps(csrcBytes(hc.CSRC), csrcBytes(orig.CSRC)))
-	c.O.Bool(overlaps(extArrayBytes(hc.Extensions), extArrayBytes(orig.Extensions)))
-	c.O.Bool(anyOverlap(byteSlicesOf(&hc), origBytes))
+	c.O.Bool(overlaps(caCsrcBytes(hc.CSRC), caCsrcBytes(orig.CSRC)))
+	c.O.Bool(overlaps(caExtArrayBytes(hc.Extensions), caExtArrayBytes(orig.Extensions)))
+	c.O.Bool(caAnyOverlap(caByteSlicesOf(&hc), origBytes))
 
 	mutated, other := orig, clone
 	if onClone {
@@ -856,15 +856,15 @@ func observeC20x(c *Case, in *PacketIn, extsNil bool, m c20Mut, onClone, viaWire
 	} else if m.kind != 0 {
 		c.Trivial() // the mutation had nothing to change (empty slice, absent id, rejected value)
 	}
-	writeSide(&c.O, other)
-	marshalTok(&c.O, other)
+	caWriteSide(&c.O, other)
+	caMarshalTok(&c.O, other)
 	// the header clone taken before the mutation must not have moved either
 	writeHeaderObs(&c.O, &hc)
 	c.O.Nat(int(hc.ExtensionProfile))
 }
 
-// genMut draws a mutation that is usually effective on the given packet.
-func genMut(r *Rand, in *PacketIn, kind int) c20Mut {
+// caGenMut draws a mutation that is usually effective on the given packet.
+func caGenMut(r *Rand, in *PacketIn, kind int) c20Mut {
 	m := c20Mut{kind: kind}
 	switch kind {
 	case 1:
@@ -908,8 +908,8 @@ func genMut(r *Rand, in *PacketIn, kind int) c20Mut {
 	return m
 }
 
-// genPacketFull draws a well-formed packet with every field populated.
-func genPacketFull(r *Rand, kind int) *PacketIn {
+// caGenPacketFull draws a well-formed packet with every field populated.
+func caGenPacketFull(r *Rand, kind int) *PacketIn {
 	p := &PacketIn{}
 	genFixed(r, &p.H)
 	p.H.Marker = true
@@ -946,10 +946,10 @@ func init() {
 					for rep := 0; rep < 8; rep++ {
 						kind, mk, side := kind, mk, side
 						x.Case(func(c *Case) {
-							p := genPacketFull(c.R, kind)
+							p := caGenPacketFull(c.R, kind)
 							tagPacket(c, p)
 							c.Tag([]string{"mut=none", "mut=payload", "mut=csrc", "mut=extbyte", "mut=set", "mut=del"}[mk])
-							observeC20(c, p, false, genMut(c.R, p, mk), side == 1)
+							observeC20(c, p, false, caGenMut(c.R, p, mk), side == 1)
 						})
 					}
 				}
@@ -982,7 +982,7 @@ func init() {
 						p.H.ExtensionProfile = uint16(c.R.Intn(65536)) // not observable through the encoder, copied by Clone
 					}
 					c.Tag("nil-variants")
-					observeC20(c, p, extsNil, genMut(c.R, p, c.R.Intn(6)), side == 1)
+					observeC20(c, p, extsNil, caGenMut(c.R, p, c.R.Intn(6)), side == 1)
 				})
 			}
 		}
@@ -991,14 +991,14 @@ func init() {
 				var p *PacketIn
 				switch c.R.Intn(10) {
 				case 0:
-					p = genPacketOdd(c.R, 60)
+					p = caGenPacketOdd(c.R, 60)
 					c.Tag("odd")
 				case 1, 2, 3:
 					p = genPacketWF(c.R, 300)
 				default:
-					p = genPacketFull(c.R, c.R.Pick(profOne, profTwo, profLegacy))
+					p = caGenPacketFull(c.R, c.R.Pick(profOne, profTwo, profLegacy))
 				}
-				wf := c.Tagged("odd") == false
+				wf := !caTagged(c, "odd")
 				// now and then a payload beyond the usual allocation size classes
 				if c.R.Chance(1, 25) {
 					if x.Thorough() {
@@ -1011,11 +1011,11 @@ func init() {
 				if !p.H.Extension && c.R.Bool() {
 					p.H.ExtensionProfile = uint16(c.R.Intn(65536))
 				}
-				withDupes(c, p)
+				caWithDupes(c, p)
 				tagPacket(c, p)
 				mk := c.R.Intn(6)
 				c.Tag([]string{"mut=none", "mut=payload", "mut=csrc", "mut=extbyte", "mut=set", "mut=del"}[mk])
-				observeC20x(c, p, c.R.Bool(), genMut(c.R, p, mk), c.R.Bool(), wf && c.R.Chance(1, 3))
+				observeC20x(c, p, c.R.Bool(), caGenMut(c.R, p, mk), c.R.Bool(), wf && c.R.Chance(1, 3))
 			})
 		}
 	})
